@@ -31,13 +31,19 @@ def mask_ids(pattern, n):
             "alternate": list(range(1, n, 4)), "ends": [0, 1, n - 2, n - 1]}[pattern]
 
 
-def base_spectrum():
+def base_spectrum(kind="passive"):
     import numpy as np
     from pyimpspec import generate_mock_data
     full = generate_mock_data("CIRCUIT_1", noise=5e-2, seed=21)[0]
     f, Z = full.get_frequencies(), full.get_impedances()
     idx = sorted(set(int(round(x)) for x in np.linspace(0, len(f) - 1, N_POINTS)))
-    return np.array(f[idx]), np.array(Z[idx])
+    f, Z = np.array(f[idx]), np.array(Z[idx])
+    if kind == "active":
+        # a negative differential resistance at low frequency: the real parts of Z and of Y change sign
+        # (the admittance branch of Z-HIT shifts such data by an offset before the reconstruction)
+        w = 2 * np.pi * f
+        Z = Z - 1.6 * float(np.max(Z.real)) / (1 + 1j * w * 0.05)
+    return f, Z
 
 
 def make_tracing_class():
@@ -110,9 +116,9 @@ def make_tracing_class():
     return TracingDataSet
 
 
-def build_data(cls, pattern, order, garbage):
+def build_data(cls, pattern, order, garbage, kind="passive"):
     import numpy as np
-    f, Z = base_spectrum()          # descending
+    f, Z = base_spectrum(kind)      # descending
     n = len(f)
     m = mask_ids(pattern, n)
     Z = Z.copy()
@@ -164,15 +170,21 @@ def call_for(cfg, data):
             fn = lambda: [pyimpspec.calculate_drt(data, method="lm", num_procs=1)]  # noqa: E731
         elif var == "bht":
             fn = lambda: [pyimpspec.calculate_drt(data, method="bht", num_samples=200, num_attempts=2, num_procs=1)]  # noqa: E731
+        elif var == "mrq-fit-from-fit":
+            with np.errstate(all="ignore"):
+                fit = pyimpspec.fit_circuit(parse_cdc("R{R=100}(R{R=200}Q{Y=1e-6,n=0.9})(R{R=400}Q{Y=2e-4,n=0.85})"), data,
+                                            method="least_squares", weight="boukamp", max_nfev=100, num_procs=1)
+            circuit = fit.circuit         # the input circuit of this variant: it must come back unmodified
+            fn = lambda: [pyimpspec.calculate_drt(data, method="mrq-fit", circuit=circuit, fit=fit, num_procs=1, max_nfev=100)]  # noqa: E731
         else:
-            circuit = parse_cdc("R{R=100}(R{R=200}Q{Y=1e-6,n=0.9})(R{R=400}Q{Y=2e-4,n=0.85})")
+            circuit = parse_cdc("R(RQ)(RQ)" if var == "mrq-fit-defaults" else "R{R=100}(R{R=200}Q{Y=1e-6,n=0.9})(R{R=400}Q{Y=2e-4,n=0.85})")
             fn = lambda: [pyimpspec.calculate_drt(data, method="mrq-fit", circuit=circuit, num_procs=1, max_nfev=100)]  # noqa: E731
     elif e == "fit":
-        circuit = parse_cdc("R{R=100}(R{R=200}C{C=1e-6})(R{R=400}Q{Y=2e-4,n=0.85})")
+        circuit = parse_cdc("R(RC)(RQ)" if var == "defaults" else "R{R=100}(R{R=200}C{C=1e-6})(R{R=400}Q{Y=2e-4,n=0.85})")
         if var == "fixed-parameter":
             circuit.get_elements()[0].set_fixed(R=True)
         meth, wgt = {"leastsq-boukamp": ("leastsq", "boukamp"), "nelder-modulus": ("nelder", "modulus"),
-                     "two-methods": (["leastsq", "powell"], ["boukamp", "unity"]), "fixed-parameter": ("least_squares", "proportional")}[var]
+                     "two-methods": (["leastsq", "powell"], ["boukamp", "unity"]), "fixed-parameter": ("least_squares", "proportional"), "defaults": ("least_squares", "modulus")}[var]
         fn = lambda: [pyimpspec.fit_circuit(circuit, data, method=meth, weight=wgt, max_nfev=200, num_procs=1)]  # noqa: E731
     else:
         raise MachineryError(e)
@@ -224,7 +236,7 @@ def run_config(cfg):
     base_f, _ = base_spectrum()
     runs = []
     for garbage in (0, 1, 2):
-        data, m = build_data(cls, cfg["mask"], cfg["order"], garbage)
+        data, m = build_data(cls, cfg["mask"], cfg["order"], garbage, cfg.get("spectrum", "passive"))
         fn, circuit = call_for(cfg, data)
         before = data.to_dict()
         circ_before = circuit.serialize(17) if circuit is not None else None
@@ -290,7 +302,7 @@ def validate(v: Verdict, runs):
 
 
 def name_of(cfg):
-    return f"{cfg['e']['entry']}[{cfg['e']['variant']}] mask={cfg['mask']} order={cfg['order']}"
+    return f"{cfg['e']['entry']}[{cfg['e']['variant']}] mask={cfg['mask']} order={cfg['order']} spectrum={cfg.get('spectrum', 'passive')}"
 
 
 def judge(v: Verdict, runs):
@@ -362,7 +374,7 @@ def run(tier: str, seed: int) -> int:
         # every entry/variant once with a non-trivial mask, plus a sample of the rest
         chosen, seen = [], set()
         for c in rng.sample(configs, len(configs)):
-            key = (c["e"]["entry"], c["e"]["variant"])
+            key = (c["e"]["entry"], c["e"]["variant"], c["spectrum"])
             if key not in seen and c["mask"] != "none":
                 seen.add(key)
                 chosen.append(c)
